@@ -616,7 +616,7 @@ def main(tier, seed, only=None):
     if os.environ.get("VERIF_C19_API", "1") != "0":
         api_thread = threading.Thread(target=lambda: api_box.update(api_sweep(seed, thorough)))
         api_thread.start()
-    configs = CONFIGS_QUICK + (CONFIGS_EXTRA if thorough else [])
+    configs = CONFIGS_QUICK + (CONFIGS_EXTRA if thorough else CONFIGS_EXTRA[:2])   # quick: the two LTO configurations, on 3 seeded programs
     if os.environ.get("VERIF_C19_CONFIGS"):   # tooling only: restrict to the named configurations, e.g. "clang++ -O2 -flto"
         want = [w.strip() for w in os.environ["VERIF_C19_CONFIGS"].split(",")]
         configs = [c for c in CONFIGS_QUICK + CONFIGS_EXTRA if cfg_name(c) in want]
@@ -624,20 +624,38 @@ def main(tier, seed, only=None):
     groups = int(os.environ.get("VERIF_C19_GROUPS", "16"))
     programs = covering_programs(cat, rng, groups)
     nseeded = int(os.environ.get("VERIF_C19_PROGRAMS", "40" if thorough else "8"))
+    ncover = len(programs)
     for i in range(nseeded):
         programs.append(seeded_program(cat, Rng(common.run_seed(seed, i + 1)), i))
+    # one program built to meet the recorded clang-LTO finding (KNOWN_FINDINGS.txt): a bystander that includes other
+    # PhQ headers linked before the user's TU; LTO configurations only
+    lrng = Rng(common.run_seed(seed, 777))
+    lpg = gen.ProbeGen(cat, lrng)
+    lunits = lrng.sample(sorted(cat.units), 3)
+    litems = [gen.as_item(p_, i_ + 1, lrng, allow_literal=False) for i_, p_ in enumerate(lpg.covering(lunits[0])[:14])]
+    bit = dict(lpg.random_probe(lunits[1], ["print-unit", "convert", "abbr"]), id=900, form="bystander")
+    programs.append({"label": "lto-probe:%s|%s" % (lunits[0], lunits[1]),
+                     "tus": [{"name": "u0", "role": "user", "includes": ordered_includes(litems, lrng), "items": litems},
+                             {"name": "b0", "role": "bystander", "includes": ordered_includes([bit], lrng), "items": [bit]}]})
+    lto_index = len(programs) - 1
     # schedules
     jobs = []
     for pi, p in enumerate(programs):
         prng = Rng(common.run_seed(seed, 1000 + pi))
         cover = p["label"].startswith("cover")
+        if pi == lto_index:
+            for cfg in configs:
+                if "-flto" in cfg["opt"]:
+                    for o in (["b0", "u0", "main"], ["u0", "b0", "main"], ["main", "b0", "u0"]):
+                        jobs.append((pi, {"cfg": cfg, "packaging": "objects", "order": o}))
+            continue
         orders = [["u0", "main"], ["main", "u0"]] if cover else link_orders(p, prng, 16 if thorough else 6)
         has_by = any(t["role"] == "bystander" for t in p["tus"])
         for cfg in configs:
             if cover and cfg not in CONFIGS_QUICK and not thorough:
                 continue
-            if not cover and cfg not in CONFIGS_QUICK and pi % 3 != 0:
-                continue    # the extra configurations (LTO, no-PIE, no-inline) take a third of the seeded programs
+            if not cover and cfg not in CONFIGS_QUICK and (pi % 3 != 0 if thorough else (pi - ncover) >= 3):
+                continue    # the extra configurations (LTO, no-PIE, no-inline) take a third of the seeded programs (quick: LTO on three)
             for o in orders:
                 jobs.append((pi, {"cfg": cfg, "packaging": "objects", "order": o}))
             if (thorough or pi % 4 == 0) and not cover:
@@ -653,7 +671,7 @@ def main(tier, seed, only=None):
             if sch["packaging"] == "objects":
                 sch["observer"] = True
     log("programs=%d (covering=%d seeded=%d) configs=%d schedules=%d" % (
-        len(programs), len(programs) - nseeded, nseeded, len(configs), len(jobs)))
+        len(programs), ncover, nseeded, len(configs), len(jobs)))
     # phase 1: compile every distinct (TU, config) once, in parallel (the expensive part).  A probe that the
     # library cannot compile for this numeric type (compile-time defects such as Time<float>::Create are outside
     # C19) is dropped and counted, never reported.
@@ -817,7 +835,7 @@ def main(tier, seed, only=None):
     for l in reported:
         log(l)
     wall = time.time() - t0
-    sample_prog = programs[-1] if nseeded else programs[0]
+    sample_prog = programs[lto_index - 1] if nseeded else programs[0]
     samples = [{"program": sample_prog["label"],
                 "tus": [{"name": t["name"], "role": t["role"], "includes": t["includes"],
                          "items": [{k: it.get(k) for k in ("id", "form", "storage", "kind", "note") if it.get(k) is not None} for it in t["items"]][:8]}
@@ -845,7 +863,7 @@ def main(tier, seed, only=None):
                      "distinct_(probe_kind,mask)_states": len(mask_states),
                      "meaning": "mask = per library table, whether its storage was still all-zero (not yet dynamically initialised) when a probe started before main"},
         "table_dependent_probes_by_kind": kinds,
-        "programs": len(programs), "covering_programs": len(programs) - nseeded, "seeded_programs": nseeded,
+        "programs": len(programs), "covering_programs": ncover, "seeded_programs": nseeded, "lto_probe_programs": 1,
         "configs": [cfg_name(c) for c in configs],
         "unit_types_covered": len(cat.units), "catalogue": cat.summary(),
         "compiles": tc.compiles, "links": tc.links, "process_runs": tc.runs,
